@@ -261,9 +261,15 @@ pub fn run_local_idle(idle_ms: u32, gap_ms: u32, n: u32) -> Result<(Option<u32>,
 }
 
 pub fn run_local_idle_on(idle_ms: u32, gap_ms: u32, n: u32, shutdown_fails: bool) -> Result<(Option<u32>, Option<u64>, String, bool), String> {
+    run_local_idle_pipe(idle_ms, gap_ms, n, shutdown_fails, 1 << 18)
+}
+
+/// `pipe`: capacity of the in-memory stream in each direction.  The peer reads nothing after the open
+/// exchange, so with a small pipe whatever the endpoint tries to write when its time-out fires finds no room.
+pub fn run_local_idle_pipe(idle_ms: u32, gap_ms: u32, n: u32, shutdown_fails: bool, pipe: usize) -> Result<(Option<u32>, Option<u64>, String, bool), String> {
     let rt = paused_runtime();
     rt.block_on(async move {
-        let (cio, pio) = tokio::io::duplex(1 << 18);
+        let (cio, pio) = tokio::io::duplex(pipe);
         let cio = FailingShutdown { inner: cio, fail: shutdown_fails };
         let mut peer = Peer::new(pio);
         let client = tokio::spawn(async move { Connection::builder().container_id("c17i").idle_time_out(idle_ms).open_with_stream(cio).await });
@@ -535,6 +541,25 @@ pub fn main(opts: &Opts) {
                 }
             }
             Err(e) => report.finding(Finding { kind: "violation", key: "local-idle-scenario-failed".into(), description: e, replay: json!({"property": prop, "module": "limits", "local_idle": {"idle_ms": idle, "gap_ms": gap, "n": n, "shutdown_fails": shutdown_fails}}) }),
+        }
+    }
+    // (c') a peer that has gone silent AND reads nothing any more, behind a stream that holds 32 / 64 octets:
+    // the time-out is still reported, and in time (nothing the endpoint may want to say on its way out can
+    // be allowed to wait for a reader that is gone)
+    for &pipe in &[32usize, 64] {
+        for &idle in &[50u32, 1000] {
+            report.evaluations += 1;
+            report.count("local_idle_peer_not_reading");
+            let replay = json!({"property": prop, "module": "limits", "local_idle": {"idle_ms": idle, "gap_ms": idle / 4, "n": 0, "pipe": pipe}});
+            match run_local_idle_pipe(idle, idle / 4, 0, false, pipe) {
+                Ok(r) => {
+                    report.nontrivial_case(fnv(&format!("lip{}/{}", idle, pipe)));
+                    if let Some((key, desc)) = check_local_idle(idle, idle / 4, &r) {
+                        report.finding(Finding { kind: "violation", key: format!("{}:peer-not-reading", key), description: format!("stream of {} octets, peer silent and not reading: {}", pipe, desc), replay });
+                    }
+                }
+                Err(e) => report.finding(Finding { kind: "violation", key: "local-idle-scenario-failed".into(), description: e, replay }),
+            }
         }
     }
     // (d)
